@@ -19,6 +19,7 @@ type overlayEdit struct {
 	File string `json:"file"` // relative to repo root (/repo)
 	Old  string `json:"old"`
 	New  string `json:"new"`
+	Nth  int    `json:"nth"` // when > 0: old occurs several times, edit the nth occurrence (1-based)
 }
 
 func main() {
@@ -100,11 +101,25 @@ func check(args []string) (code int) {
 			fmt.Println("BROKEN:", err)
 			return 2
 		}
-		if strings.Count(string(src), m.Old) != 1 {
-			fmt.Printf("BROKEN: mutant %s: old text occurs %d times in %s\n", *mutant, strings.Count(string(src), m.Old), m.File)
+		cnt := strings.Count(string(src), m.Old)
+		if (m.Nth == 0 && cnt != 1) || (m.Nth > 0 && cnt < m.Nth) {
+			fmt.Printf("BROKEN: mutant %s: old text occurs %d times in %s\n", *mutant, cnt, m.File)
 			return 3
 		}
-		opts.Overlay = map[string][]byte{abs: []byte(strings.Replace(string(src), m.Old, m.New, 1))}
+		edited := string(src)
+		if m.Nth > 0 {
+			at := -1
+			off := 0
+			for k := 0; k < m.Nth; k++ {
+				i := strings.Index(edited[off:], m.Old)
+				at = off + i
+				off = at + len(m.Old)
+			}
+			edited = edited[:at] + m.New + edited[at+len(m.Old):]
+		} else {
+			edited = strings.Replace(edited, m.Old, m.New, 1)
+		}
+		opts.Overlay = map[string][]byte{abs: []byte(edited)}
 	}
 	p, err := core.Load(opts)
 	if err != nil {
